@@ -18,7 +18,13 @@ import (
 	"time"
 )
 
-const VerifDir = "/verif"
+// VerifDir is where evidence, replays, run output and known_findings.json live (the directory of ./check).
+var VerifDir = func() string {
+	if d := os.Getenv("VERIF_DIR"); d != "" {
+		return d
+	}
+	return "/verif"
+}()
 
 type job struct {
 	tag         string
@@ -451,7 +457,16 @@ func conclude(spec *Spec, m *Merged, tier string, seed uint64, wall time.Duratio
 	exit := 0
 	var knownSeen []string
 	nviol := 0
-	sort.Slice(m.Violations, func(i, j int) bool { return m.Violations[i].Sig < m.Violations[j].Sig })
+	sort.SliceStable(m.Violations, func(i, j int) bool { return m.Violations[i].Sig < m.Violations[j].Sig })
+	{ // one report per signature
+		dedup := m.Violations[:0]
+		for i, v := range m.Violations {
+			if i == 0 || v.Sig != m.Violations[i-1].Sig {
+				dedup = append(dedup, v)
+			}
+		}
+		m.Violations = dedup
+	}
 	for i := range m.Violations {
 		v := &m.Violations[i]
 		matched := false
